@@ -11,6 +11,20 @@ Binding A: every exported constructor call (all four classes, bounds in both ord
 Binding B: random dyadic priors and u pairs through the real sample(); TLC re-evaluates the
        specification on the logged arguments (scaled comparison, monotone bracket for the normal
        quantile from the uninterpreted table) + canary.
+
+Strengthening (far tails, prior space x parameter mode):
+ * tail ladder of the spec (Priors.tla: TK, TailPts, TailSample, TZAssumption): u = 2^-k down to the smallest
+   positive double and u = 1 - 2^-k up to the largest double below one, every point exactly representable.
+   Exported with every vector (binding A: finite, table value, inverse-CDF identity Phi((x-mean)/sd) = u relative
+   to min(u, 1-u) through math.erfc, strictly monotone along ladder + grid, mirror symmetry, 10**x handed to the
+   model) and sampled as "tail" trace events (binding B).
+ * spec/MC_PriorDelivery.tla: a prior of every class/constructor form attached to a parameter of every kind
+   (declared linear / log, switched by set_mode either way) by every public route (set_prior, text through
+   create_prior, [Fitting] section of an input file, default from mode and bounds), compile_params, then the
+   sampler's step update_model([prior.sample(u)]) for the whole grid; the exported value that must reach the model
+   (tag pow10 / id + exact sample) is compared with what the setters of a real ForwardModel receive through a real
+   Optimizer (harness/fx_priors.py), four parameters at a time.  "deliver" trace events give binding B; the
+   by_mode variant of the spec must be refuted by TLC (self-test).
 """
 import json
 import math
@@ -21,9 +35,14 @@ from fractions import Fraction
 from statistics import NormalDist
 
 from ..core import Machinery, frac, run_tlc, validate_trace
+from .. import fx_priors as fxp
 
 UN = 16
 ZS = 100
+ZTS = 100
+ZT_LEN = 1074                # 2^-1074 is the smallest positive double
+EPS = 2.0 ** -52
+SQ2 = math.sqrt(2.0)
 REL_U = 1e-12
 REL_G = 1e-9
 ND = NormalDist()
@@ -32,10 +51,37 @@ ND = NormalDist()
 def z_file():
     """The uninterpreted table of the spec, filled from the stdlib (not from scipy)."""
     z = [int(round(ND.inv_cdf(k / UN) * ZS)) for k in range(1, UN)]
+    # ladder table ZT[k] ~ ZTS * Phi^-1(2^-k): two independent evaluations (AS241 of the stdlib on p itself,
+    # inversion of math.erfc) must agree before anything is concluded from it
+    zq = [ND.inv_cdf(2.0 ** -k) for k in range(1, ZT_LEN + 1)]
+    for k in (1, 2, 4, 5, 12, 30, 53, 54, 100, 332, 997, 1022):
+        if abs(erfc_quantile(k) - zq[k - 1]) > 1e-9 * max(1.0, abs(zq[k - 1])):
+            raise Machinery('normal quantile at 2^-%d: stdlib %r vs erfc inversion %r' % (k, zq[k - 1], erfc_quantile(k)))
+    zt = [int(round(x * ZTS)) for x in zq]
     fd, path = tempfile.mkstemp(prefix='verifz_', suffix='.ndjson')
     with os.fdopen(fd, 'w') as f:
-        f.write(json.dumps({'z': z}) + '\n')
+        f.write(json.dumps({'z': z, 'zt': zt}) + '\n')
     return path
+
+
+def lower_mass(z):
+    """Phi(z) with full relative accuracy in the lower tail."""
+    return 0.5 * math.erfc(-z / SQ2)
+
+
+def erfc_quantile(k):
+    """z with Phi(z) = 2^-k by bisection on math.erfc (k <= 1022: the mass is a normal double)."""
+    if k == 1:
+        return 0.0
+    target = -k * math.log(2.0)
+    lo, hi = -37.6, 0.0          # Phi(-37.6) ~ 1e-309 is still a positive double
+    for _ in range(200):
+        mid = 0.5 * (lo + hi)
+        if math.log(lower_mass(mid)) < target:
+            lo = mid
+        else:
+            hi = mid
+    return 0.5 * (lo + hi)
 
 
 def same(x, y, rel, scale=0.0):
@@ -171,6 +217,7 @@ def check_vector(ctx, v, rng):
             mono = False
         prev = got
     ctx.verdict('monotone', mono, cls=cls, vector=vec, detail='samples on the grid are not increasing')
+    check_tail(ctx, v, obj, cls, a, b, uni)
     # --- linear-space arguments == their log10
     if call['key1'] in ('lin_bounds', 'lin_mean'):
         lf = v['logform']
@@ -210,6 +257,216 @@ def check_vector(ctx, v, rng):
                     detail='default for mode=%s bounds=%r is %r, direct %r' % (mode, bounds, dd, d))
 
 
+# ------------------------------------------------------------------ tail ladder (binding A)
+def ladder_u(pt):
+    """The double that IS the ladder point (every point of the spec's ladder is exactly representable)."""
+    k = int(pt['k'])
+    exact = Fraction(1, 2 ** k) if pt['side'] == 'lo' else 1 - Fraction(1, 2 ** k)
+    u = math.ldexp(1.0, -k) if pt['side'] == 'lo' else 1.0 - math.ldexp(1.0, -k)
+    if Fraction(u) != exact or not 0.0 < u < 1.0:
+        raise Machinery('ladder point %r is not a double in (0,1)' % (pt,))
+    return u, exact
+
+
+def pt_name(pt):
+    return ('2^-%d' if pt['side'] == 'lo' else '1-2^-%d') % int(pt['k'])
+
+
+def tail_region(pt):
+    k = int(pt['k'])
+    return '%s:%s' % (pt['side'], 'k<=30' if k <= 30 else 'k<=53' if k <= 53 else 'k<=1022' if k <= 1022 else 'subnormal')
+
+
+def check_tail(ctx, v, obj, cls, a, b, uni):
+    """The clauses of the property on the spec's tail ladder (exported with the vector)."""
+    pts, exp = v['tpts'], v['t']
+    vec = dict(call=v['call'], p=v['p'])
+    log_kind = v['space'] == 'log'
+    seq = []                                   # (u, got) in increasing order of u: ladder below the grid, grid ends, ladder above
+    n_lo = sum(1 for pt in pts if pt['side'] == 'lo')
+    by_pt = {}
+    for i, (pt, e) in enumerate(zip(pts, exp)):
+        if i == n_lo:                           # the ladder meets the grid here
+            seq.append((1.0 / UN, float(obj.sample(1.0 / UN))))
+            seq.append((1.0 - 1.0 / UN, float(obj.sample(1.0 - 1.0 / UN))))
+        u, uq = ladder_u(pt)
+        k = int(pt['k'])
+        region = cls + ':' + tail_region(pt)
+        pvec = dict(vec, tail=pt)
+        try:
+            got = float(obj.sample(u))
+        except Exception as ex:
+            ctx.verdict('tail_finite', False, cls=region, vector=pvec, detail='sample(%s) raised %r' % (pt_name(pt), ex))
+            continue
+        seq.append((u, got))
+        by_pt[(pt['side'], k)] = got
+        if not math.isfinite(got):
+            ctx.verdict('tail_finite', False, cls=region, vector=pvec,
+                        detail='sample(%s) = %r for 0 < u < 1 (%s(%r, %r))' % (pt_name(pt), got, v['p']['kind'], a, b))
+            continue
+        ctx.verdict('tail_finite', True, cls=region, vector=pvec)
+        if uni:
+            want = frac(e['a']) + frac(e['w']) * uq                 # the spec's linear form at the exact u
+            tol = REL_U * max(abs(a), abs(float(want))) + math.ldexp(1.0, -1074)      # + the quantum of subnormal doubles
+            ok = abs(Fraction(got) - want) <= tol and a - tol <= got <= b + tol
+            ctx.verdict('tail_inverse_cdf_uniform', ok, cls=region, vector=pvec,
+                        detail='sample(%s) = %r expected %r in [%r, %r]' % (pt_name(pt), got, float(want), a, b))
+        else:
+            table = float(frac(e))
+            z = (got - a) / b
+            ok = abs(got - table) <= b * 0.5 / ZTS + 1e-9 * max(abs(a), b)
+            detail = 'sample(%s) = %r, specification table %r +- %r' % (pt_name(pt), got, table, b * 0.5 / ZTS)
+            if ok and k <= 1022:
+                # inverse-CDF identity relative to min(u, 1-u): the tail mass at the sample is 2^-k
+                mass = lower_mass(z) if pt['side'] == 'lo' else lower_mass(-z)
+                dz = 4 * EPS * max(abs(a), abs(got), b * abs(z)) / b          # rounding of x = mean + sd z
+                tol = REL_G + 2 * (abs(z) + 1) * dz                           # d ln(mass)/dz <= |z| + 1 in the tails
+                rel = mass / math.ldexp(1.0, -k) - 1.0
+                ok = abs(rel) <= tol
+                detail = 'sample(%s) = %r: Phi((x-mean)/sd) misses %s by %.3g relative (allowed %.3g)' % (
+                    pt_name(pt), got, 'u' if pt['side'] == 'lo' else '1-u', rel, tol)
+            ctx.verdict('tail_inverse_cdf_gaussian', ok, cls=region, vector=pvec, detail=detail)
+        if log_kind and abs(got) <= 300:
+            m = obj.prior(got)
+            ctx.verdict('tail_back_transform', same(m, 10.0 ** got, 1e-12) and m > 0, cls=region, vector=pvec,
+                        detail='prior(sample(%s)) = %r expected %r' % (pt_name(pt), m, 10.0 ** got))
+    # monotone along ladder + grid ends: strict for the normal kinds (the ladder points are far apart in x),
+    # non-decreasing for the uniform kinds (lo + u w rounds to lo for tiny u unless lo = 0)
+    bad = [(seq[i], seq[i + 1]) for i in range(len(seq) - 1)
+           if not (seq[i + 1][1] >= seq[i][1] if uni else seq[i + 1][1] > seq[i][1])]
+    ctx.verdict('tail_monotone', not bad, cls=cls, vector=vec,
+                detail='not increasing: sample(%r) = %r, sample(%r) = %r' % (bad[0][0][0], bad[0][0][1], bad[0][1][0], bad[0][1][1]) if bad else '')
+    if not uni:
+        for (side, k), lo in by_pt.items():
+            if side == 'lo' and ('hi', k) in by_pt and math.isfinite(lo) and math.isfinite(by_pt[('hi', k)]):
+                hi = by_pt[('hi', k)]
+                ctx.verdict('tail_symmetric', abs(lo + hi - 2 * a) <= REL_G * max(abs(a), abs(lo), abs(hi)), cls=cls,
+                            vector=dict(vec, tail=dict(side='lo', k=k)),
+                            detail='sample(2^-%d) + sample(1-2^-%d) = %r expected %r' % (k, k, lo + hi, 2 * a))
+
+
+# ------------------------------------------------------------------ delivery through the optimizer (binding A)
+def dlv_key(v):
+    return json.dumps([v['pk'], v['route'], v['name'], v['call']], sort_keys=True)
+
+
+def dlv_cls(v):
+    return '%s:%s|mode=%s(%s)|route=%s' % (v['call']['cls'], v['call']['key1'], v['mode'], v['pk'], v['route'])
+
+
+def dlv_item(v, rng):
+    """The public calls that realise the spec's Attach action for one parameter."""
+    call = v['call']
+    kw = kwargs_of(call)
+    param = fxp.KIND_PARAM[v['pk']]
+    it = dict(param=param, mode_switch=fxp.SWITCH.get(param), route=v['route'], prior=None, text=None, bounds=None)
+    if v['route'] == 'default':
+        it['bounds'] = kw[call['key1']]          # linear-space bounds of the parameter (10**e for a log-mode parameter)
+    elif v['route'] == 'set_prior':
+        it['prior'] = klass(call['cls'])(**kw)
+    else:
+        it['text'] = rng.choice(text_forms(v['name'], kw, rng))
+    return it
+
+
+def check_delivery_batch(ctx, batch, rng):
+    """One optimizer, one parameter per vector of the batch (distinct parameter kinds): Attach, Compile, then the
+    sampler's step for every u of the grid; what each setter receives is compared with the exported value."""
+    opt, model = fxp.fresh()
+    items = [dlv_item(v, rng) for v in batch]
+    order = list(range(len(items)))
+    rng.shuffle(order)
+    for i in order:
+        if items[i]['route'] == 'file':
+            fxp.setup_by_file(opt, [items[i]])
+        else:
+            fxp.setup_by_calls(opt, [items[i]])
+    opt.compile_params()
+    names = [p[0] for p in opt.fitting_parameters]
+    live = []
+    for v, it in zip(batch, items):
+        cls = dlv_cls(v)
+        slim = dict(dlv=True, pk=v['pk'], route=v['route'], name=v['name'], call=v['call'], text=it['text'])
+        direct = describe(klass(v['call']['cls'])(**kwargs_of(v['call'])))
+        if names.count(it['param']) != 1 or len(opt.fitting_priors) != len(names):
+            ctx.verdict('delivery_prior_attached', False, cls=cls, vector=slim, detail='fitted parameters %r, %d priors' % (names, len(opt.fitting_priors)))
+            continue
+        pri = opt.fitting_priors[names.index(it['param'])]
+        d = describe(pri)
+        okp = d == direct and d['mode'] == v['space'] and d['cls'] == v['p']['kind']
+        ctx.verdict('delivery_prior_attached', okp, cls=cls, vector=slim,
+                    detail='prior of %s after compile_params is %r, direct construction %r' % (it['param'], d, direct))
+        if okp:
+            live.append((v, it, cls, slim, pri))
+    for k in range(UN + 1):
+        u = k / UN
+        cube = [float(q.sample(u)) for q in opt.fitting_priors]
+        before = {n: len(model.received[n]) for n in names}
+        opt.update_model(cube)
+        for v, it, cls, slim, pri in live:
+            r = v['recv'][k]
+            if r['sp'] == 'none':
+                continue
+            got_all = model.received[it['param']][before[it['param']]:]
+            a, b = float(frac(v['p']['a'])), float(frac(v['p']['b']))
+            uni = v['p']['kind'] in ('Uniform', 'LogUniform')
+            x = float(frac(r['x'])) if uni else a + b * ND.inv_cdf(u)
+            rel = REL_U if uni else REL_G
+            if len(got_all) != 1:
+                ok, detail = False, 'setter of %s called %d times by update_model' % (it['param'], len(got_all))
+            else:
+                got = float(got_all[0])
+                if r['sp'] == 'pow10':          # the model must receive 10**x: compare in the prior's own (log10) space
+                    ok = got > 0 and math.isfinite(got) and abs(math.log10(got) - x) <= rel * max(abs(x), abs(a), abs(b)) + 1e-14
+                    ok = ok and (uni or abs(math.log10(got) - float(frac(r['x']))) <= b * 0.5 / ZS + 1e-9)
+                    detail = 'model received %r, expected 10**%r = %r' % (got, x, 10.0 ** x if abs(x) < 300 else None)
+                else:
+                    ok = same(got, x, rel, scale=max(abs(a), abs(b)))
+                    ok = ok and (uni or abs(got - float(frac(r['x']))) <= b * 0.5 / ZS + 1e-9)
+                    detail = 'model received %r, expected %r' % (got, x)
+                detail = '%s of %s (mode %s) with %s(%s) via %s, u=%d/%d: %s' % (
+                    it['param'], 'RecordingModel', v['mode'], v['p']['kind'], pri.params(), v['route'], k, UN, detail)
+            ctx.verdict('delivered_to_model', ok, cls=cls, vector=dict(slim, k=k), detail=detail)
+
+
+def run_delivery(ctx, zf, vecs=None, only=None):
+    env = {'PRIORS_Z_FILE': zf}
+    if vecs is None:
+        res = ctx.check_spec('delivery', 'MC_PriorDelivery', 'MC_PriorDelivery_%s.cfg' % ctx.tier,
+                             need_actions=('Attach', 'Compile', 'Update'), env=env, workers=1)
+        ctx.expect_refuted('delivery-by-mode-refuted', 'MC_PriorDelivery', 'MC_PriorDelivery_bymode.cfg', 'DeliveryInv', env=env, workers=4)
+        vecs = res.tagged('DLV')
+        # vacuity guard: every constructor form x every parameter kind, every route, prior space != parameter mode included
+        combos = {(v['call']['cls'], v['call']['key1'], v['pk']) for v in vecs if v['route'] != 'default'}
+        routes = {v['route'] for v in vecs}
+        crossed = {(v['space'], v['mode']) for v in vecs}
+        if len(combos) != 24 or routes != {'set_prior', 'text', 'file', 'default'} or len(crossed) != 4:
+            raise Machinery('delivery export incomplete: %d form x kind combinations, routes %r, space x mode %r'
+                            % (len(combos), sorted(routes), sorted(crossed)))
+    rng = random.Random(ctx.seed * 9176 + 8)
+    groups = {}
+    for v in vecs:
+        groups.setdefault(v['pk'], []).append(v)
+    for g in groups.values():
+        g.sort(key=dlv_key)
+        rng.shuffle(g)
+    n = max(len(g) for g in groups.values())
+    nb = 0
+    for i in range(n):
+        batch = [g[i % len(g)] for _, g in sorted(groups.items())]
+        if only is not None:
+            batch = [v for v in batch if dlv_key(v) in only]
+            if not batch:
+                continue
+        check_delivery_batch(ctx, batch, rng)
+        nb += 1
+    ctx.note('delivery: %d exported (parameter kind, route, call) vectors replayed in %d optimizers' % (len(vecs), nb))
+    if vecs:
+        ctx.add_sample(dict(delivery_vector={k: vecs[0][k] for k in ('pk', 'mode', 'route', 'name', 'call', 'space')},
+                            recv=vecs[0]['recv'][:3]))
+    return vecs
+
+
 # ------------------------------------------------------------------ binding B
 def dy(rng, lo, hi, den):
     return Fraction(rng.randint(lo * den, hi * den), den)
@@ -243,15 +500,134 @@ def random_events(rng, n):
                 s1 = s2 = float('nan')
             bad = not (abs(s1) < 900 and abs(s2) < 900)      # NaN / infinite / far outside any support used here
             m1, m2 = (0, 0) if bad else (int(round(s1 * S)), int(round(s2 * S)))
-            events.append(dict(id=len(events), kind=kind, a=[a.numerator, a.denominator], b=[b.numerator, b.denominator],
+            events.append(dict(id=len(events), op='pair', kind=kind, a=[a.numerator, a.denominator], b=[b.numerator, b.denominator],
                                j1=j1, j2=j2, UD=UD, S=S, m1=m1, m2=m2, tol=1, bad=bad,
                                gtol=int(math.ceil(float(b) * 0.5 / ZS * S)) + 2, got=[s1, s2]))
     return events
 
 
-def run_traces(ctx, n, zf):
+def build_prior(kind, a, b):
+    from taurex.core import priors
+    if kind in ('Uniform', 'LogUniform'):
+        return getattr(priors, kind)(bounds=[float(a), float(b)])
+    return getattr(priors, kind)(mean=float(a), std=float(b))
+
+
+def random_prior_args(rng, kind, tail=False):
+    """Dyadic arguments (quarters); returns (a, b) of the normal form and the constructor arguments as given."""
+    if kind in ('Uniform', 'LogUniform'):
+        while True:
+            x, y = dy(rng, -100, 100, 4), dy(rng, -100, 100, 4)
+            if x != y:
+                return min(x, y), max(x, y), (x, y)
+    a, b = dy(rng, -50, 50, 4), Fraction(rng.randint(1, 40), 4)
+    return a, b, (a, b)
+
+
+def tail_event(obj, kind, a, b, pt1, pt2, eid):
+    S = 1000
+    try:
+        s1, s2 = float(obj.sample(ladder_u(pt1)[0])), float(obj.sample(ladder_u(pt2)[0]))
+    except Exception:
+        s1 = s2 = float('nan')
+    bad = not (abs(s1) < 450 and abs(s2) < 450)        # NaN / infinite / far outside anything the ladder can give here
+    m1, m2 = (0, 0) if bad else (int(round(s1 * S)), int(round(s2 * S)))
+    return dict(id=eid, op='tail', kind=kind, a=[a.numerator, a.denominator], b=[b.numerator, b.denominator],
+                s1=pt1['side'], k1=int(pt1['k']), s2=pt2['side'], k2=int(pt2['k']), S=S, m1=m1, m2=m2, tol=1, bad=bad,
+                gtol=int(math.ceil(float(b) * 0.5 / ZTS * S)) + 2, got=[s1, s2])
+
+
+def tail_events(rng, n, pts, first_id):
+    """Pairs of real sample() calls at two points of the spec's tail ladder."""
+    events = []
+    hi_ks = [int(p['k']) for p in pts if p['side'] == 'hi']
+    while len(events) < n:
+        kind = rng.choice(['Uniform', 'LogUniform', 'Gaussian', 'LogGaussian'])
+        a, b, given = random_prior_args(rng, kind)
+        obj = build_prior(kind, *given)
+        for _ in range(6):
+            pt1 = rng.choice(pts)
+            if rng.random() < 0.3 and int(pt1['k']) in hi_ks:
+                pt2 = dict(side='hi' if pt1['side'] == 'lo' else 'lo', k=pt1['k'])        # mirror pair
+            else:
+                pt2 = rng.choice(pts)
+            events.append(tail_event(obj, kind, a, b, pt1, pt2, first_id + len(events)))
+    return events
+
+
+def deliver_reading(recv, S):
+    """Two-way reading of what the model received: as it is, and its log10 (scaled integers when they exist)."""
+    out = dict(hasl=False, lin=0, hasg=False, log=0)
+    try:
+        r = float(recv)
+    except Exception:
+        return out
+    if r == r and abs(r) < 900:
+        out.update(hasl=True, lin=int(round(r * S)))
+    if r == r and 0 < r < float('inf') and abs(math.log10(r)) < 900:
+        out.update(hasg=True, log=int(round(math.log10(r) * S)))
+    return out
+
+
+def deliver_event(kind, a, b, given, pk, j, eid):
+    S, UD = 1000, 256
+    opt, model = fxp.fresh()
+    param = fxp.KIND_PARAM[pk]
+    fxp.setup_by_calls(opt, [dict(param=param, mode_switch=fxp.SWITCH.get(param), route='set_prior',
+                                  prior=build_prior(kind, *given))])
+    opt.compile_params()
+    try:
+        opt.update_model([opt.fitting_priors[0].sample(j / UD)])
+        recv = model.received[param][-1]
+    except Exception:
+        recv = float('nan')
+    mode = 'log' if pk in ('log', 'lin2log') else 'linear'
+    e = dict(id=eid, op='deliver', kind=kind, a=[a.numerator, a.denominator], b=[b.numerator, b.denominator], pk=pk, mode=mode,
+             j1=j, UD=UD, S=S, tol=1, gtol=int(math.ceil(float(b) * 0.5 / ZS * S)) + 2, got=[float(recv)])
+    e.update(deliver_reading(recv, S))
+    return e
+
+
+def deliver_events(rng, n, first_id):
+    events = []
+    while len(events) < n:
+        kind = rng.choice(['Uniform', 'LogUniform', 'Gaussian', 'LogGaussian'])
+        a, b, given = random_prior_args(rng, kind)
+        pk = rng.choice(sorted(fxp.KIND_PARAM))
+        uni = kind in ('Uniform', 'LogUniform')
+        j = rng.randint(0 if uni else 1, 256 if uni else 255)
+        events.append(deliver_event(kind, a, b, given, pk, j, first_id + len(events)))
+    return events
+
+
+EVENT_KEYS = {'pair': ('id', 'op', 'kind', 'a', 'b', 'j1', 'j2', 'UD', 'S', 'tol', 'gtol'),
+              'tail': ('id', 'op', 'kind', 'a', 'b', 's1', 'k1', 's2', 'k2', 'S', 'tol', 'gtol'),
+              'deliver': ('id', 'op', 'kind', 'a', 'b', 'pk', 'mode', 'j1', 'UD', 'S', 'tol', 'gtol')}
+
+
+def event_detail(e):
+    if e['op'] == 'tail':
+        return 'TLC rejected samples %r of %s(%s,%s) at u=%s,%s' % (
+            e['got'], e['kind'], e['a'], e['b'], pt_name(dict(side=e['s1'], k=e['k1'])), pt_name(dict(side=e['s2'], k=e['k2'])))
+    if e['op'] == 'deliver':
+        return 'TLC rejected the value %r received by the %s-mode parameter (%s) with %s(%s,%s) at u=%d/%d' % (
+            e['got'], e['mode'], e['pk'], e['kind'], e['a'], e['b'], e['j1'], e['UD'])
+    return 'TLC rejected samples %r of %s(%s,%s) at u=%d/%d,%d/%d' % (e['got'], e['kind'], e['a'], e['b'], e['j1'], e['UD'], e['j2'], e['UD'])
+
+
+def event_cls(e):
+    if e['op'] == 'tail':
+        return '%s:trace:tail' % e['kind']
+    if e['op'] == 'deliver':
+        return '%s:trace:mode=%s(%s)' % (e['kind'], e['mode'], e['pk'])
+    return '%s:trace' % e['kind']
+
+
+def run_traces(ctx, n, zf, pts):
     rng = random.Random(ctx.seed * 6007 + 8)
     events = random_events(rng, n)
+    events += tail_events(random.Random(ctx.seed * 6007 + 9), max(600, n // 5), pts, len(events))
+    events += deliver_events(random.Random(ctx.seed * 6007 + 10), max(600, n // 10), len(events))
     slim = [{k: v for k, v in e.items() if k != 'got'} for e in events]
     accepted, bad, res = validate_trace('Trace_Priors', 'Trace_Priors.cfg', slim, env={'PRIORS_Z_FILE': zf})
     ctx.add_tlc('trace', res, counts=False)
@@ -261,22 +637,36 @@ def run_traces(ctx, n, zf):
     ctx.traces += len(events)
     for e in events:
         b = badids.get(e['id'])
-        ctx.verdict('trace_' + (b['why'] if b else 'accepted'), b is None, cls='%s:trace' % e['kind'],
-                    detail='TLC rejected samples %r of %s(%s,%s) at u=%d/%d,%d/%d' % (e['got'], e['kind'], e['a'], e['b'], e['j1'], e['UD'], e['j2'], e['UD']),
-                    vector=dict(e, trace=True))
+        if b and b['why'] in ('tail_unknown_point', 'unknown_op'):
+            raise Machinery('trace event outside the specification: %r' % (e,))
+        ctx.verdict('trace_' + (b['why'] if b else 'accepted' if e['op'] == 'pair' else e['op'] + '_accepted'), b is None,
+                    cls=event_cls(e), detail=event_detail(e), vector=dict(e, trace=True))
     ctx.add_sample(dict(trace_event=slim[0]))
-    # canary
-    for kind in ('Uniform', 'Gaussian'):
-        good = [e for e in slim if e['id'] not in badids and e['kind'] == kind and 16 <= e['j1'] <= 240]   # closed bracket
+    for op in ('tail', 'deliver'):
+        ctx.add_sample(dict(trace_event=next(e for e in slim if e['op'] == op)))
+    # canaries: one corrupted event of every kind of event, validated in one TLC run; every one must be rejected
+    canaries = []
+    for op, kind in (('pair', 'Uniform'), ('pair', 'Gaussian'), ('tail', 'Gaussian'), ('tail', 'Uniform'), ('deliver', 'LogUniform'), ('deliver', 'Gaussian')):
+        cand = [e for e in slim if e['op'] == op and e['kind'] == kind]
+        good = [e for e in cand if e['id'] not in badids and (op != 'pair' or 16 <= e['j1'] <= 240)      # closed bracket
+                and (op != 'deliver' or 16 <= e['j1'] <= 240)]
         if not good:
-            if any(e['kind'] == kind for e in slim if e['id'] in badids):
+            if any(e['id'] in badids for e in cand):
                 continue                    # every candidate was rejected already: the validation is not vacuous
-            raise Machinery('no event for the canary')
+            raise Machinery('no %s/%s event for the canary' % (op, kind))
         c = dict(good[len(good) // 2])
-        c['m1'] = c['m1'] + 40 * c['gtol'] + 500
-        ok2, bad2, _ = validate_trace('Trace_Priors', 'Trace_Priors.cfg', [c], env={'PRIORS_Z_FILE': zf})
-        if ok2 or not bad2:
-            raise Machinery('canary (%s) accepted: trace validation is vacuous' % kind)
+        if op == 'deliver':                 # the other reading of the value: 10**x where x is due and vice versa
+            for f in ('lin', 'log'):
+                c[f] = c[f] + 40 * c['gtol'] + 500
+        else:
+            c['m1'] = c['m1'] + 40 * c['gtol'] + 500
+        canaries.append(c)
+    if canaries:
+        ok2, bad2, _ = validate_trace('Trace_Priors', 'Trace_Priors.cfg', canaries, env={'PRIORS_Z_FILE': zf})
+        rejected = {b['id'] for b in bad2}
+        for c in canaries:
+            if c['id'] not in rejected:
+                raise Machinery('canary (%s %s) accepted: trace validation is vacuous' % (c['op'], c['kind']))
 
 
 def run(ctx):
@@ -285,12 +675,23 @@ def run(ctx):
                       exhaustive='all constructor calls over %s rational arguments (both orders), exponents -12..6 for lin_*, u = k/16'
                                  % ('16' if q else '48'),
                       vectors='exported calls x 3 name spellings x 3 text styles; uniform 1e-12, gaussian 1e-9 vs statistics.NormalDist',
-                      traces='%d random dyadic priors/u pairs' % (4000 if q else 40000))
+                      traces='%d random dyadic priors/u pairs + %d tail-ladder pairs + %d update_model deliveries'
+                             % ((4000, 800, 600) if q else (40000, 8000, 4000)),
+                      tail_ladder='u = 2^-k and 1 - 2^-k (k <= 53), k in TK of the cfg (%d points quick / %d thorough), down to 2^-1074'
+                                  % (17 + 10, 30 + 19),
+                      delivery='6 constructor forms x 4 parameter kinds (declared linear/log, switched either way) x routes '
+                               'set_prior / text (3 spellings) / input file / default, u = k/16')
     ctx.assumptions = ['the normal quantile is an uninterpreted strictly increasing odd table in the spec; its numerical '
                        'values come from statistics.NormalDist.inv_cdf (stdlib), not from scipy',
                        'float 10**x at the boundary; log10(10**e) == e checked for every exponent used',
                        'degenerate intervals (equal bounds) and std <= 0 are outside the checked domain',
                        'lin_std is not part of the statement and is not checked',
+                       'tail ladder: the normal quantile at 2^-k is a second uninterpreted table (stdlib AS241, cross-checked by '
+                       'inverting math.erfc); the inverse-CDF identity is evaluated with math.erfc at the boundary with a '
+                       'tolerance of 1e-9 plus the conditioning of x = mean + sd z; below 2^-1022 (subnormal mass) only the table, '
+                       'finiteness, monotonicity',
+                       'uniform kinds cannot be strictly monotone in doubles for tiny u (lo + u w rounds to lo): non-decreasing there',
+                       'delivery is observed at the setters of a recording ForwardModel declared with @fitparam (harness/fx_priors.py)',
                        'TLC + CommunityModules Json/IOUtils']
     zf = z_file()
     try:
@@ -300,6 +701,10 @@ def run(ctx):
         ctx.expect_refuted('unordered-bounds-refuted', 'MC_Priors', 'MC_Priors_asgiven.cfg', 'MonotoneInv', env=env, workers=1)
         res = ctx.check_spec('export', 'MC_Priors', 'EX_Priors.cfg' if q else 'EX_Priors_thorough.cfg', env=env, workers=1)
         vecs = res.tagged('VEC')
+        pts = vecs[0]['tpts'] if vecs else []
+        if not ({'lo', 'hi'} == {p['side'] for p in pts} and max(int(p['k']) for p in pts) >= 1074
+                and any(p['side'] == 'hi' and int(p['k']) == 53 for p in pts) and vecs[0]['zts'] == ZTS):
+            raise Machinery('the exported tail ladder does not reach 2^-1074 and 1 - 2^-53: %r' % (pts,))
         if len(vecs) < 300:
             raise Machinery('only %d vectors exported' % len(vecs))
         rng = random.Random(ctx.seed * 31 + 8)
@@ -310,7 +715,8 @@ def run(ctx):
         if len(kinds) != 6:
             raise Machinery('exported vectors do not cover the six constructor forms: %r' % sorted(kinds))
         ctx.add_sample(dict(vector=vecs[len(vecs) // 2]))
-        run_traces(ctx, 4000 if q else 40000, zf)
+        run_delivery(ctx, zf)
+        run_traces(ctx, 4000 if q else 40000, zf, pts)
     finally:
         os.unlink(zf)
 
@@ -319,20 +725,37 @@ def replay(ctx, violations):
     zf = z_file()
     try:
         rng = random.Random(0)
+        dlv = {dlv_key(v['vector']) for v in violations if v['vector'].get('dlv')}
+        if dlv:
+            res = run_tlc('MC_PriorDelivery', 'MC_PriorDelivery_thorough.cfg', env={'PRIORS_Z_FILE': zf}, workers=1)
+            allv = res.tagged('DLV')
+            if not dlv <= {dlv_key(v) for v in allv}:
+                res = run_tlc('MC_PriorDelivery', 'MC_PriorDelivery_quick.cfg', env={'PRIORS_Z_FILE': zf}, workers=1)
+                allv = res.tagged('DLV')
+            run_delivery(ctx, zf, vecs=[v for v in allv if dlv_key(v) in dlv])
         for v in violations:
             vec = v['vector']
+            if vec.get('dlv'):
+                continue
             if vec.get('trace'):
-                from taurex.core import priors
-                e = {k: vec[k] for k in ('id', 'kind', 'a', 'b', 'j1', 'j2', 'UD', 'S', 'tol', 'gtol')}
-                a, b = Fraction(*e['a']), Fraction(*e['b'])
-                obj = getattr(priors, e['kind'])(bounds=[float(a), float(b)]) if e['kind'] in ('Uniform', 'LogUniform') \
-                    else getattr(priors, e['kind'])(mean=float(a), std=float(b))
-                s1, s2 = float(obj.sample(e['j1'] / e['UD'])), float(obj.sample(e['j2'] / e['UD']))
-                e['bad'] = not (abs(s1) < 900 and abs(s2) < 900)
-                e['m1'], e['m2'] = (0, 0) if e['bad'] else (int(round(s1 * e['S'])), int(round(s2 * e['S'])))
+                op = vec.get('op', 'pair')
+                a, b = Fraction(*vec['a']), Fraction(*vec['b'])
+                if op == 'deliver':
+                    e = deliver_event(vec['kind'], a, b, (a, b), vec['pk'], vec['j1'], vec['id'])
+                elif op == 'tail':
+                    e = tail_event(build_prior(vec['kind'], a, b), vec['kind'], a, b, dict(side=vec['s1'], k=vec['k1']),
+                                   dict(side=vec['s2'], k=vec['k2']), vec['id'])
+                else:
+                    e = {k: vec[k] for k in EVENT_KEYS['pair']}
+                    obj = build_prior(e['kind'], a, b)
+                    s1, s2 = float(obj.sample(e['j1'] / e['UD'])), float(obj.sample(e['j2'] / e['UD']))
+                    e['bad'] = not (abs(s1) < 900 and abs(s2) < 900)
+                    e['m1'], e['m2'] = (0, 0) if e['bad'] else (int(round(s1 * e['S'])), int(round(s2 * e['S'])))
+                    e['got'] = [s1, s2]
+                got = e.pop('got')
                 _, bad, _ = validate_trace('Trace_Priors', 'Trace_Priors.cfg', [e], env={'PRIORS_Z_FILE': zf})
-                ctx.verdict('trace_' + (bad[0]['why'] if bad else 'accepted'), not bad, cls='%s:trace' % e['kind'],
-                            detail='samples %r %r' % (s1, s2), vector=vec)
+                ctx.verdict('trace_' + (bad[0]['why'] if bad else 'accepted' if op == 'pair' else op + '_accepted'), not bad,
+                            cls=event_cls(e), detail='observed %r' % (got,), vector=vec)
             else:
                 # rebuild the exported fields that check_vector needs from the spec again
                 full = export_one(vec['call'], zf)
